@@ -155,3 +155,14 @@ Theorem C13_write_shows_through_every_handle : forall s h k v hd x, get_handle s
        match data_of s' h' with Some d => alookup String.eqb k d = Some v | None => False end.
 Proof. exact write_shows_through_the_instance. Qed.
 Print Assumptions C13_write_shows_through_every_handle.
+
+(* non-vacuity: two handles on one on-disk bucket - the premises of C13_open_registered_shares and of
+   C13_write_shows_through_every_handle hold, and the second handle reads what the first wrote *)
+Example C13_sharing_example :
+  let s := rfinal rstate0 [ROpen false "U0" "nA" CreateNew] in
+  alookup String.eqb "nA" (r_buckets s) = Some 0
+  /\ (exists x, get_inst s 0 = Some x /\ String.eqb (i_url x) (the_url false "U0") = true /\ i_dbopen x = true)
+  /\ snd (do_open s false "U0" "nA" CreateOrOpen) = RROpened 1
+  /\ let s2 := fst (do_open s false "U0" "nA" CreateOrOpen) in
+     data_of (fst (do_write s2 0 "k" "v")) 1 = Some [("k", "v")].
+Proof. vm_compute. repeat split. eexists. repeat split. Qed.
